@@ -432,16 +432,19 @@ theorem produceLoop_filter (cfg : StreamCfg) (hk : KtlLocal cfg.ktl) (k : Bytes)
 
 end C25L
 
-/-- C25_single_snapshot: all producers at one read timestamp `ts` ⇒ for every user key the KVs
-    delivered (over all ranges of any split) are exactly what the ONE snapshot at `ts`
-    prescribes — every chosen key once, no other key at all. -/
+/-- C25_single_snapshot: for every split of the key space, every `NumGo`, every user key, the
+    KVs a run delivers (over all ranges) are exactly what the ONE snapshot at the run's read
+    timestamp `ts` prescribes — every chosen key once, no other key at all. (Since commit
+    5000444 `Orchestrate` pins that timestamp for all producers, so this is unconditional; the
+    behaviour before the fix is `streamRunPerProducer` below.) -/
 theorem C25_single_snapshot (merged : List Ent) (hs : SortedEnts merged) (cfg : StreamCfg)
     (hk : KtlLocal cfg.ktl) (ts now : Nat)
     (splits : List Bytes) (hne : ∀ s ∈ splits, s ≠ []) (hpfx : ∀ s ∈ splits, cfg.prefix_.isPrefixOf s)
-    (rts : List Nat) (hlen : rts.length = (splitRanges splits).length) (hall : ∀ r ∈ rts, r = ts) (k : Bytes) :
-    ((streamRun merged cfg now (splitRanges splits) rts).flatten).filter (fun e => e.key == k) =
+    (k : Bytes) :
+    ((streamRun merged cfg now (splitRanges splits) ts).flatten).filter (fun e => e.key == k) =
       specEmit cfg (snapshotView merged cfg.prefix_ cfg.sinceTs ts) k := by
-  rw [streamRun_const merged cfg now ts _ rts hlen hall, C25_concat merged hs cfg ts now splits hne hpfx]
+  unfold streamRun
+  rw [C25_concat merged hs cfg ts now splits hne hpfx]
   unfold produceRange
   rw [C25_rangeItems_eq merged hs _ _ _ _ [] (.inl rfl)]
   have hq : ∀ l : List Ent, l.dropWhile (fun e => cmpBytes e.key [] == .lt) = l := by
@@ -456,9 +459,8 @@ theorem C25_single_snapshot (merged : List Ent) (hs : SortedEnts merged) (cfg : 
 
 example : SortedEnts f7Merged ∧ KtlLocal (toListCfg 1 0 [] 0 (fun _ => true)).ktl ∧
     (∀ s ∈ [[0x62]], s ≠ ([] : Bytes)) ∧ (∀ s ∈ [[0x62]], ([] : Bytes).isPrefixOf s) ∧
-    [2, 2].length = (splitRanges [[0x62]]).length ∧ (∀ r ∈ [2, 2], r = 2) ∧
     specEmit (toListCfg 1 0 [] 0 (fun _ => true)) (snapshotView f7Merged [] 0 2) [0x62] ≠ [] :=
-  ⟨by unfold SortedEnts; decide, C25_toList_local 1 0, by decide, by decide, by decide, by decide, by decide⟩
+  ⟨by unfold SortedEnts; decide, C25_toList_local 1 0, by decide, by decide, by decide⟩
 
 /-! ### the consumer -/
 
@@ -491,18 +493,42 @@ theorem C25_send_serial (groups : List (List (List Ent))) :
 example : (consume [[[f7Merged.head!], []], [[]], [f7Merged]]).2 =
     [SendEv.enter 1, SendEv.exit, SendEv.enter 4, SendEv.exit] := by decide
 
-/-! ## F7: the unchanged code gives every producer goroutine its own transaction -/
+/-! ## F7 (fixed by 5000444): before the fix every producer goroutine had its own transaction -/ 
+
+/-- the behaviour BEFORE commit 5000444: every producer goroutine created its own transaction,
+    so range `i` was read at the timestamp `rts[i]` current when its producer started. -/
+def streamRunPerProducer (merged : List Ent) (cfg : StreamCfg) (now : Nat) (ranges : List KeyRange)
+    (rts : List Nat) : List (List Ent) :=
+  (ranges.zip rts).map (fun (r, ts) => produceRange merged cfg ts now r)
+
+/-- with equal timestamps the old behaviour is the new one -/
+theorem C25_per_producer_const (merged : List Ent) (cfg : StreamCfg) (now ts : Nat) (ranges : List KeyRange)
+    (rts : List Nat) (hlen : rts.length = ranges.length) (hall : ∀ r ∈ rts, r = ts) :
+    streamRunPerProducer merged cfg now ranges rts = streamRun merged cfg now ranges ts := by
+  unfold streamRunPerProducer streamRun
+  induction ranges generalizing rts with
+  | nil => simp
+  | cons r rs ih =>
+    cases rts with
+    | nil => simp at hlen
+    | cons t tl =>
+      have ht : t = ts := hall t (by simp)
+      subst ht
+      simp only [List.zip_cons_cons, List.map_cons]
+      rw [ih tl (by simpa using hlen) (fun x hx => hall x (List.mem_cons_of_mem _ hx))]
 
 def f7Run (rts : List Nat) : List Ent :=
-  (streamRun f7Merged (toListCfg 1 0 [] 0 (fun _ => true)) 0 (splitRanges [[0x62]]) rts).flatten
+  (streamRunPerProducer f7Merged (toListCfg 1 0 [] 0 (fun _ => true)) 0 (splitRanges [[0x62]]) rts).flatten
 
-/-- negation witness for the unconditional form of `C25_single_snapshot`: the producer of range
-    `[nil, b)` created its transaction before the transfer committed (read timestamp 1), the
-    producer of `[b, nil)` after it (read timestamp 2): the run delivers `a = 10, b = 11`, which
-    is the snapshot of no timestamp. -/
-theorem C25_F7_multi_snapshot_witness :
+/-- regression witness for finding F7 (fixed by 5000444): why the single timestamp matters. With
+    per-producer transactions, the producer of range `[nil, b)` created its transaction before
+    the transfer committed (read timestamp 1), the producer of `[b, nil)` after it (read
+    timestamp 2): the run delivered `a = 10, b = 11`, which is the snapshot of no timestamp —
+    while a run at ONE timestamp is a snapshot by `C25_single_snapshot`. -/
+theorem C25_F7_regression_witness :
     (f7Run [1, 2]).map (fun e => (e.key, e.ver, e.val)) = [([0x61], 1, [10]), ([0x62], 2, [11])] ∧
-    ∀ ts, ts ≤ 4 → f7Run [1, 2] ≠ f7Run [ts, ts] := by
+    ∀ ts, ts ≤ 4 → f7Run [1, 2] ≠
+      (streamRun f7Merged (toListCfg 1 0 [] 0 (fun _ => true)) 0 (splitRanges [[0x62]]) ts).flatten := by
   decide
 
 end Badger
